@@ -326,6 +326,20 @@ func init() {
 					}
 				})
 				okOrder := h == nil && lk != nil && !canFollow(fb, lk)
+				if lk == nil {
+					// the scan is a range-over-func loop: its body is a closure, the fallback must come after the iterator ran
+					for _, rf := range rangeFuncs(look) {
+						inBody := false
+						eachInstr(rf.Body, func(in ssa.Instruction) {
+							if _, ok := in.(*ssa.Lookup); ok {
+								inBody = true
+							}
+						})
+						if inBody {
+							okOrder = h == nil && canFollow(rf.Iter, fb) && !canFollow(fb, rf.Iter)
+						}
+					}
+				}
 				c.check(okOrder, "Lookup: root struct last", p.instrPos(fb), "root data is consulted only when no scope defines the name", "the root-struct fallback is consulted before/inside the scope scan")
 			}
 			// Set: innermost scope
@@ -397,6 +411,62 @@ func init() {
 						if v, ok := constInt(b.Y); ok && isCallNamed(b.X, "builtin.len") != nil {
 							n = v
 						}
+					}
+				}
+				if n < 0 {
+					// the form may be selected by exclusion (`n != 1 && n != 2` → error, `n == 2` → …, else → …):
+					// for which numbers of variables is the binding reachable at all?
+					var can []int64
+					for cand := int64(0); cand <= 3; cand++ {
+						cand := cand
+						if reachableAssuming(site.Block(), func(cond ssa.Value) (bool, bool) {
+							b, ok := cond.(*ssa.BinOp)
+							if !ok {
+								return false, false
+							}
+							x, y := b.X, b.Y
+							op := b.Op
+							if isCallNamed(y, "builtin.len") != nil {
+								x, y = y, x
+								switch op {
+								case token.LSS:
+									op = token.GTR
+								case token.GTR:
+									op = token.LSS
+								case token.LEQ:
+									op = token.GEQ
+								case token.GEQ:
+									op = token.LEQ
+								}
+							}
+							if isCallNamed(x, "builtin.len") == nil {
+								return false, false
+							}
+							m, isK := constInt(y)
+							if !isK {
+								return false, false
+							}
+							switch op {
+							case token.EQL:
+								return cand == m, true
+							case token.NEQ:
+								return cand != m, true
+							case token.LSS:
+								return cand < m, true
+							case token.LEQ:
+								return cand <= m, true
+							case token.GTR:
+								return cand > m, true
+							case token.GEQ:
+								return cand >= m, true
+							}
+							return false, false
+						}) {
+							can = append(can, cand)
+						}
+					}
+					if len(can) == 1 {
+						n = can[0]
 					}
 				}
 				got[int(n)] = append(got[int(n)], bind{int(k), prm})
@@ -1164,6 +1234,14 @@ func loopDirection(fn *ssa.Function) int {
 			}
 		})
 	})
+	if dir == 0 {
+		// a range-over-func loop over a slice iterator of the standard library
+		for _, rf := range rangeFuncs(fn) {
+			if rf.Dir != 0 {
+				dir = rf.Dir
+			}
+		}
+	}
 	return dir
 }
 
